@@ -701,7 +701,7 @@ impl<'a> VisitMut for CfgStrip<'a> {
 
 
 /// R8: the pointer idiom "which element of this Vec is this reference" -- exactly these four statements,
-/// token for token --
+/// token for token up to the names of the three locals --
 ///     let nodes_range = self.nodes.as_ptr_range();
 ///     let p = node as *const Node<T>;
 ///     if !nodes_range.contains(&p) { return None; }
@@ -711,23 +711,46 @@ impl<'a> VisitMut for CfgStrip<'a> {
 /// index of the element the reference points to.  Any other spelling is left alone (the body then stays outside
 /// Verus's reach and the function is quarantined as before).
 fn r8_slice_position(block: &mut Block, fired: &mut Vec<String>) {
-    const PAT: [&str; 4] = [
-        "let nodes_range = self.nodes.as_ptr_range();",
-        "let p = node as *const Node<T>;",
-        "if !nodes_range.contains(&p) { return None; }",
-        "let node_index = (p as usize - nodes_range.start as usize) / mem::size_of::<Node<T>>();",
-    ];
-    let pat: Vec<String> = PAT
-        .iter()
-        .map(|t| syn::parse_str::<Block>(&format!("{{ {} }}", t)).expect("R8 pattern").stmts[0].to_token_stream().to_string())
-        .collect();
+    // the three locals may carry any name (A: the pointer range, B: the pointer, C: the index); everything else is
+    // compared token for token
+    fn local_name(s: &Stmt) -> Option<String> {
+        if let Stmt::Local(l) = s {
+            if let Pat::Ident(pi) = &l.pat {
+                if pi.by_ref.is_none() && pi.mutability.is_none() && pi.subpat.is_none() {
+                    return Some(pi.ident.to_string());
+                }
+            }
+        }
+        None
+    }
     if block.stmts.len() < 4 {
         return;
     }
     for i in 0..=block.stmts.len() - 4 {
-        if (0..4).all(|j| block.stmts[i + j].to_token_stream().to_string() == pat[j]) {
+        let (a, b, c) = match (local_name(&block.stmts[i]), local_name(&block.stmts[i + 1]), local_name(&block.stmts[i + 3])) {
+            (Some(a), Some(b), Some(c)) => (a, b, c),
+            _ => continue,
+        };
+        if a == b || ["self", "node", "mem", "Node", "T"].contains(&a.as_str()) || ["self", "node", "mem", "Node", "T"].contains(&b.as_str()) {
+            continue;
+        }
+        let texts = [
+            format!("let {a} = self.nodes.as_ptr_range();"),
+            format!("let {b} = node as *const Node<T>;"),
+            format!("if !{a}.contains(&{b}) {{ return None; }}"),
+            format!("let {c} = ({b} as usize - {a}.start as usize) / mem::size_of::<Node<T>>();"),
+        ];
+        let pat: Vec<String> = texts
+            .iter()
+            .map(|t| match syn::parse_str::<Block>(&format!("{{ {} }}", t)) {
+                Ok(bl) if bl.stmts.len() == 1 => bl.stmts[0].to_token_stream().to_string(),
+                _ => String::new(),
+            })
+            .collect();
+        if (0..4).all(|j| !pat[j].is_empty() && block.stmts[i + j].to_token_stream().to_string() == pat[j]) {
+            let cid = Ident::new(&c, Span::call_site());
             let repl: Stmt = parse_quote! {
-                let node_index = match vx_slice_position(&self.nodes, node) {
+                let #cid = match vx_slice_position(&self.nodes, node) {
                     Some(i) => i,
                     None => return None,
                 };
